@@ -38,33 +38,66 @@ def renderRes (s : St) : String :=
 def digits (s : String) : List Nat :=
   if s == "-" then [] else s.toList.map (fun c => c.toNat - 48)
 
-def run (op impl : String) : Ans :=
+structure Exch where
+  rq : Req
+  ka : Bool
+  script : List Act
+
+def parseExch (op : String) : Option Exch :=
   match op.splitOn " " with
   | ["f", m, pr, cn, ka, rb, sc] =>
     match hexStr cn, rb.toNat?, parseScript sc with
     | some conn, some rb, some script =>
-      let rq : Req := { isHead := m == "HEAD", proto11 := pr == "11", conn := conn,
-                        clNonZero := rb != 0, bodyLeft := rb }
-      let s := respond rq (ka == "1") script
-      let st := expectedStatus script
-      let verdict :=
-        match impl.splitOn " " with
-        | [c, _, wr, _, hx] =>
-          match bytesOfHex hx with
-          | some out => judge rq.isHead script (c == "1") (digits wr) out
-          | none => "FAIL:bad-result"
-        | _ => "FAIL:bad-result"
-      let nwrites := script.filter (fun a => match a with | .write d => !d.isEmpty | _ => false) |>.length
-      let tags :=
-        [if rq.isHead then "head" else "nohead", if rq.proto11 then "h11" else "h10",
-         "st" ++ statusClass false st,
-         if s.chunking then "chunked" else if s.contentLength.isSome then "cl" else "nolen",
-         if s.close then "close" else "keep"] ++
-        (if s.limitHit then ["limit"] else []) ++
-        (if s.writeRes.contains 2 then ["overcl"] else []) ++
-        (if nwrites > 0 || script.contains .flush then ["nt"] else [])
-      { model := renderRes s, verdict := verdict, tags := tags }
-    | _, _, _ => { model := "bad-op", verdict := "skip" }
-  | _ => { model := "bad-op", verdict := "skip" }
+      some { rq := { isHead := m == "HEAD", proto11 := pr == "11", conn := conn, clNonZero := rb != 0, bodyLeft := rb },
+             ka := ka == "1", script := script }
+    | _, _, _ => none
+  | _ => none
+
+def renderResB (s : St) (bytes : Bytes) : String :=
+  b2s s.close ++ " " ++ b2s s.limitHit ++ " " ++
+  (if s.writeRes.isEmpty then "-" else String.join (s.writeRes.map toString)) ++ " " ++
+  toString s.bodyLeft ++ " " ++ hexField bytes
+
+def verdictOne (e : Exch) (impl : String) : String :=
+  match impl.splitOn " " with
+  | [c, _, wr, _, hx] =>
+    match bytesOfHex hx with
+    | some out => judge e.rq.isHead e.rq.proto11 e.script (c == "1") (digits wr) out
+    | none => "FAIL:bad-result"
+  | _ => "FAIL:bad-result"
+
+def tagsOne (e : Exch) (s : St) : List String :=
+  let st := expectedStatus e.script
+  let nwrites := e.script.filter (fun a => match a with | .write d => !d.isEmpty | _ => false) |>.length
+  [if e.rq.isHead then "head" else "nohead", if e.rq.proto11 then "h11" else "h10",
+   "st" ++ statusClass false st,
+   if s.chunking then "chunked" else if s.contentLength.isSome then "cl" else "nolen",
+   if s.close then "close" else "keep"] ++
+  (if s.limitHit then ["limit"] else []) ++
+  (if s.writeRes.contains 2 then ["overcl"] else []) ++
+  (if nwrites > 0 || e.script.contains .flush then ["nt"] else [])
+
+def run (op impl : String) : Ans :=
+  let multi := op.startsWith "m "
+  let ops := if multi then ((op.drop 2).toString.splitOn ";") else [op]
+  match ops.mapM parseExch with
+  | none => { model := "bad-op", verdict := "skip" }
+  | some es =>
+    let hist := history [] (es.map fun e => (e.rq, e.ka, e.script))
+    let model := ";".intercalate (hist.map fun (s, b) => renderResB s b)
+    let impls := impl.splitOn ";"
+    let verdicts := (es.zip impls).map fun (e, i) => verdictOne e i
+    let verdict :=
+      if impls.length != es.length then "FAIL:bad-result"
+      else match verdicts.find? (fun v => v.startsWith "FAIL") with
+        | some v => v
+        | none => if verdicts.all (· == "skip") then "skip" else "ok"
+    let tags := (match es, hist with
+                 | e :: _, (s, _) :: _ => tagsOne e s
+                 | _, _ => []) ++
+      (if multi then ["history"] ++
+         (if (es.zip (es.drop 1)).any (fun (a, b) => a.rq.proto11 != b.rq.proto11 &&
+               expectedStatus a.script == expectedStatus b.script) then ["verflip"] else []) else [])
+    { model := model, verdict := verdict, tags := (tags.eraseDups) }
 
 end BfeVerif.C27
